@@ -250,7 +250,13 @@ class System:
     def deliver(self, kind, i, cut=None):
         src = self.ct[i].out if kind == 'c2b' else self.st[i].out
         data = src.pop(0)
-        if cut is not None and 0 < cut < len(data):
+        if isinstance(cut, tuple):
+            # one read holding the whole head chunk and the first bytes of
+            # the chunk behind it
+            pos = cut[1]
+            data += src[0][:pos]
+            src[0] = src[0][pos:]
+        elif cut is not None and 0 < cut < len(data):
             src.insert(0, data[cut:])
             data = data[:cut]
         if kind == 'c2b':
@@ -349,6 +355,13 @@ def make_runner(params):
                             pos = ln // 2 if c == 'mid' else c
                             if 0 < pos < ln and ln > 2:
                                 opts.append((1, ('d', kind, i, pos)))
+                        if len(q) > 1:
+                            l2 = len(q[1])
+                            for c in CUTS:
+                                pos = l2 // 2 if c == 'mid' else c
+                                if 0 < pos < l2:
+                                    opts.append((1, ('d', kind, i,
+                                                     ('join', pos))))
                 for hi, (d, arg) in enumerate(s.held):
                     if not d.called:
                         opts.append((0, ('fire', hi)))
@@ -463,14 +476,15 @@ def run(ctx):
         'delivering the head chunk of any of the 2n queues and of firing a '
         'Deferred held by an exported method is executed (stateless DFS, one '
         'real execution per path), plus up to %d cut(s) inside a chunk at '
-        'byte 1, byte 16 or the middle. At quiescence each proxy Deferred '
+        'byte 1, byte 16 or the middle, or a read that joins a chunk with '
+        'the first 1 / 16 / half of the bytes of the chunk behind it. At quiescence each proxy Deferred '
         'must have fired once with what the method returned / a RemoteError '
         'mirroring what it raised, and the exporter must have run each call '
         'exactly once with equal arguments'
         % (1 if ctx.quick else 2))
     ctx.assumptions = [
-        'each transport write is delivered as one read unless cut; reads are '
-        'never merged across writes',
+        'each transport write is delivered as one read unless cut or joined '
+        'with a prefix of the next write (one deviation each)',
         'all parties share one process, hence one message-serial counter']
     if ctx.quick:
         plan = [('2c-2calls', 'explicit', 1), ('2c-2calls', 'introspect', 1),
